@@ -813,7 +813,31 @@ func Int2BV(a *Term, w int) *Term {
 		return BVResize(a.Args[0], w)
 	}
 	// int2bv is a ring homomorphism Z -> Z/2^w: push it through ite, +, -, * by constants
-	// (the recursion only descends through these Int operators and stops at bv2nat / variables)
+	// (the recursion only descends through these Int operators and stops at bv2nat / variables);
+	// kept only if it removes every int2bv, i.e. the value really came from bit-vectors
+	if r := int2bvPush(a, w); r != nil && !containsOp(r, "int2bv", map[*Term]bool{}) {
+		return r
+	}
+	return &Term{Op: "int2bv", Val: big.NewInt(int64(w)), Args: []*Term{a}, S: SBV(w)}
+}
+
+func containsOp(t *Term, op string, seen map[*Term]bool) bool {
+	if seen[t] {
+		return false
+	}
+	seen[t] = true
+	if t.Op == op {
+		return true
+	}
+	for _, a := range t.Args {
+		if containsOp(a, op, seen) {
+			return true
+		}
+	}
+	return false
+}
+
+func int2bvPush(a *Term, w int) *Term {
 	{
 		switch a.Op {
 		case "ite":
@@ -839,6 +863,10 @@ func Int2BV(a *Term, w int) *Term {
 			}
 		}
 	}
+	return nil
+}
+
+func int2bvTail(a *Term, w int) *Term {
 	return &Term{Op: "int2bv", Val: big.NewInt(int64(w)), Args: []*Term{a}, S: SBV(w)}
 }
 
